@@ -16,8 +16,8 @@ THEOREMS = [
     "Typedpy.C09.default_site_faithful",
     "Typedpy.C09.description_safe",
     "Typedpy.C09.description_site_faithful",
-    "Typedpy.C09.unescaped_description_nul",
-    "Typedpy.C09.description_statement_false",
+    "Typedpy.C09.fixed_description_nul",
+    "Typedpy.C09.description_statement_holds",
     "Typedpy.C09.defaultsSites_faithful",
     "Typedpy.C09.all_sites_faithful",
     "Typedpy.C09.all_sites_faithfulL",
@@ -46,7 +46,7 @@ THEOREMS = [
     "Typedpy.C09.emitted_module_accepted_partial",
     "Typedpy.C09.exOra_ok",
     "Typedpy.C09.counterexample_name_not_identifier",
-    "Typedpy.C09.counterexample_description_nul",
+    "Typedpy.C09.fixed_description_nul_module",
     "Typedpy.C09.always_compiles_statement_false",
     "Typedpy.C09.accepted_example",
     "Typedpy.C09.exported_schema_is_source",
